@@ -32,6 +32,9 @@ def family_result(name, tier):
             return pickle.load(f)
     t0 = time.time()
     jobs = fam["jobs"](tier)
+    compile_rejects = []
+    if fam.get("literal_units"):
+        jobs, compile_rejects = build_literal_units(jobs)
     exes = vlib.build_many(jobs)
     log("[%s] built %d recorders in %.1fs" % (name, len(jobs), time.time() - t0))
     wdir = os.path.join(cdir, "%s-%s.d" % (name, key))
@@ -50,11 +53,57 @@ def family_result(name, tier):
     total = vlib.judge_file(merged, wdir, module=fam.get("judge", "Judge"), marker=fam.get("shard_marker"))
     log("[%s] judged %d events in %.1fs: %s" % (name, total.events, time.time() - t2, dict(total.by_diag)))
     shutil.rmtree(wdir, ignore_errors=True)
+    total.bad += compile_rejects
     total.wall = time.time() - t0
     total.recorders = [j["tag"] for j in jobs]
     with open(cpath, "wb") as f:
         pickle.dump(total, f)
     return total
+
+
+def build_literal_units(jobs):
+    """Translation units that consist of generated literals (the program under test contains the tokens) and
+    compiled on the unchanged tree: a literal that no longer compiles -- the compiler's diagnostics name its line
+    in the generated include -- is a rejected event (diagnosis does_not_compile), not a machinery failure.  The
+    unit is rebuilt without the offending lines so that the remaining literals are still judged."""
+    rejects = []
+    out = []
+    for j in jobs:
+        inc = j.get("litfile")
+        if not inc:
+            out.append(j)
+            continue
+        cur = j
+        for _ in range(4):
+            try:
+                vlib.build_one(cur["src"], cur["cc"], cur.get("defines", []), cur["tag"])
+                break
+            except vlib.BuildError as e:
+                lines = sorted(set(int(m) for m in re.findall(re.escape(os.path.basename(cur["litfile"])) + r":(\d+):", e.output)))
+                if not lines:
+                    raise
+                with open(cur["litfile"]) as f:
+                    body = f.read().splitlines()
+                keep = []
+                for k, text in enumerate(body, 1):
+                    if k in lines:
+                        m = re.match(r"(LIT_[A-Z0-9]+|MAKE_C)\((.*)\)$", text.strip())
+                        kind, tok = (m.group(1), m.group(2)) if m else ("?", text)
+                        suffix = {"LIT_C": "_c", "LIT_CNL": "_cnl", "LIT_CNL2": "_cnl2", "LIT_WIDE": "_wide"}.get(kind, kind)
+                        base = 16 if tok.lower().startswith("0x") else 2 if tok.lower().startswith("0b") else \
+                            8 if (tok.startswith("0") and len(tok) > 1 and "." not in tok) else 10
+                        rejects.append(dict(event=dict(e="LitCompile", tok=tok, cc=cur["cc"]), inst=dict(kind="Lit", op=suffix),
+                                            diag="does_not_compile", cls='["LitCompile","%s",%d]' % (suffix, base), ac="novel",
+                                            file=os.path.basename(cur["litfile"]), line=k))
+                    else:
+                        keep.append(text)
+                nb = "\n".join(keep) + "\n"
+                np_ = os.path.join(os.path.dirname(cur["litfile"]), "parse-inst-%s.inc" % vlib.sha(nb))
+                with open(np_, "w") as f:
+                    f.write(nb)
+                cur = dict(cur, litfile=np_, defines=[d for d in cur["defines"] if not d.startswith("VERIF_INST_FILE")] + ['VERIF_INST_FILE="%s"' % np_])
+        out.append(cur)
+    return out, rejects
 
 
 # ---------------------------------------------------------------------------------------------
@@ -434,7 +483,7 @@ def parse_jobs(tier):
                 f.write(body)
             os.replace(p + ".tmp", p)
         cc = "clang" if (k + vlib.seed()) % 4 == 0 else "gcc"
-        jobs.append(dict(src="h_parse.cpp", cc=cc, tag="parse-%s-lit-%d" % (cc, k), defines=["PARSE_PART=1", 'VERIF_INST_FILE="%s"' % p]))
+        jobs.append(dict(src="h_parse.cpp", cc=cc, tag="parse-%s-lit-%d" % (cc, k), litfile=p, defines=["PARSE_PART=1", 'VERIF_INST_FILE="%s"' % p]))
     return jobs
 
 
@@ -524,7 +573,7 @@ def wide_jobs(tier):
 FAMILIES = {
     "static": dict(jobs=static_jobs, attr=lambda kind, op, tag, diag: ["C11"], judge="JudgeMachine", shard_marker='"e":"StReset"'),
     "math": dict(jobs=math_jobs, attr=lambda kind, op, tag, diag: ["C20"], record_timeout=1800),
-    "parse": dict(jobs=parse_jobs, attr=lambda kind, op, tag, diag: ["C15"]),
+    "parse": dict(jobs=parse_jobs, attr=lambda kind, op, tag, diag: ["C15"], literal_units=True),
     "native": dict(jobs=native_jobs, attr=lambda kind, op, tag, diag: ["C12"]),
     "text": dict(jobs=text_jobs, attr=text_attr, record_timeout=1800),
     "wide": dict(jobs=wide_jobs, attr=lambda kind, op, tag, diag: ["C10"], record_timeout=1800),
